@@ -354,6 +354,36 @@ OUTPUT_COUNT_ATTRS = {"Split": "num_outputs"}
 N_VARIADIC_OUT = 2
 
 
+# ----------------------------------------------------------------------------- element types
+def elem_types(env):
+    """every tensor element type the installed ONNX defines: {enum: numpy scalar class}, from ONNX's own
+    table (`onnx.helper.tensor_dtype_to_np_dtype`), incl. the ml_dtypes ones (bfloat16, float8*, int4, …)"""
+    if getattr(env, "_elems", None) is None:
+        np, onnx = env.np, env.onnx
+        out = {}
+        for name, e in onnx.TensorProto.DataType.items():
+            if e == 0:
+                continue
+            try:
+                out[e] = np.str_ if e == onnx.TensorProto.STRING else np.dtype(onnx.helper.tensor_dtype_to_np_dtype(e)).type
+            except Exception:  # noqa: BLE001
+                continue
+        env._elems = out
+    return env._elems
+
+
+def elem_of(env, cls):
+    """numpy scalar class / dtype -> ONNX element type enum (reverse of ONNX's table)"""
+    np = env.np
+    if cls is np.str_ or (isinstance(cls, np.dtype) and cls.kind == "U"):
+        return env.onnx.TensorProto.STRING
+    want = np.dtype(cls)
+    for e, c in elem_types(env).items():
+        if c is not np.str_ and np.dtype(c) == want and np.dtype(c).name == want.name:
+            return e
+    return None
+
+
 # ----------------------------------------------------------------------------- type values
 # (kind, …): the universe of values for TYPE_PROTO attributes - static, named, unknown and mixed
 # dimensions, unknown rank, rank 0, nested in sequences
@@ -760,7 +790,12 @@ def run_case1(env: Env, fn, schema, case, prefer_seq):
         sa = schema.attributes[a]
         given[a] = (lambda *xs: list(cb_vars)) if sa.type.name == "GRAPH" else test_value(env, sa, case.get("variant", 0))
         if a in (case.get("layout") or {}):
-            given[a] = layout_array(np, *case["layout"][a])
+            L_, d_ = case["layout"][a]
+            if L_ == "elem":
+                cls_ = elem_types(env)[d_]
+                given[a] = np.array(["a", "b"]) if cls_ is np.str_ else np.ones(3).astype(np.dtype(cls_))
+            else:
+                given[a] = layout_array(np, L_, d_)
         if a in (case.get("tvariant") or {}):
             given[a] = mk_type(env, TYPE_VARIANTS[case["tvariant"][a]])
         if (case.get("forms") or {}).get(a, "").startswith("empty"):
@@ -809,7 +844,7 @@ def run_case1(env: Env, fn, schema, case, prefer_seq):
         for trial in [[a] for a in int_attrs] + ([int_attrs] if len(int_attrs) > 1 else []):
             kw2 = dict(given)
             for a in trial:
-                kw2[a] = np.int32
+                kw2[a] = elem_types(env).get(case.get("elem"), np.int32)
             try:
                 out = call(kw2)
             except TypeError:
@@ -863,9 +898,9 @@ def attr_value_matches(env: Env, ap, sa, value, key) -> bool:
     AP = onnx.AttributeProto
     try:
         if T == "INT":
-            if isinstance(value, type):
-                value = onnx.helper.np_dtype_to_tensor_dtype(np.dtype(value))
-            return ap.type == AP.INT and ap.i == value
+            if isinstance(value, (type, np.dtype)):
+                value = elem_of(env, value)
+            return ap.type == AP.INT and value is not None and ap.i == value
         if T == "FLOAT":
             return ap.type == AP.FLOAT and f32_bits(ap.f) == f32_bits(value)
         if T == "STRING":
@@ -877,7 +912,9 @@ def attr_value_matches(env: Env, ap, sa, value, key) -> bool:
         if T == "STRINGS":
             return ap.type == AP.STRINGS and [s.decode() for s in ap.strings] == list(value)
         if T == "TENSOR":
-            return ap.type == AP.TENSOR and same_logical(np, decode_tensor(np, onnx, ap.t), np.asarray(value))
+            want_e = elem_of(env, np.asarray(value).dtype)
+            return (ap.type == AP.TENSOR and (want_e is None or ap.t.data_type == want_e)
+                    and same_logical(np, decode_tensor(np, onnx, ap.t), np.asarray(value)))
         if T == "TYPE_PROTO":
             spec = next((s for s in TYPE_VARIANTS if mk_type(env, s) == value), None)
             return ap.type == AP.TYPE_PROTO and spec is not None and describe_typeproto(ap.tp) == describe_spec(np, onnx, spec)
@@ -1214,6 +1251,82 @@ def public_oracle(ck, env: Env, stats):
                         ck.failure(k, what, {"module": mid, "op": op, "kind": "public", "case": case})
 
 
+def allowed_elems(env, schema, type_str: str):
+    """element types a schema's type constraint admits (`tensor(<name>)` strings -> enums)"""
+    names = {env.onnx.TensorProto.DataType.Name(e).lower(): e for e in elem_types(env)}
+    out = []
+    for tc in schema.type_constraints:
+        if tc.type_param_str == type_str:
+            for s in tc.allowed_type_strs:
+                if s.startswith("tensor(") and s[7:-1] in names:
+                    out.append(names[s[7:-1]])
+    return sorted(set(out))
+
+
+def public_dtype_oracle(ck, env: Env, stats, rng):
+    """`cast(x, to=T)` and `constant(value=<array of T>)` through the public API for every element type
+    the operator admits at the module's version - all in one process, order shuffled per module."""
+    from translator.constructors import MODULES
+
+    np, onnx = env.np, env.onnx
+    for mid, rel, domain, version, pymod in MODULES:
+        if domain != "":
+            continue
+        try:
+            mod = env.module(pymod)
+            force = env.schemas(domain, version)
+        except Exception:  # noqa: BLE001
+            continue
+        for opname, tstr in (("Cast", None), ("Constant", None)):
+            schema, fn = force.get(opname), mod._CONSTRUCTORS.get(opname)
+            if schema is None or fn is None:
+                continue
+            try:
+                tstr = schema.outputs[0].type_str
+                order = allowed_elems(env, schema, tstr)
+                rng.shuffle(order)
+            except Exception as e:  # noqa: BLE001
+                ck.broken("correspondence", f"public dtype oracle {mid}:{opname} not observable", f"{type(e).__name__}: {e}")
+                continue
+            for e in order:
+                cls = elem_types(env)[e]
+                case = {"present": [], "variadic": None, "attrs": ["to" if opname == "Cast" else "value"], "mode": "kw", "elem": e, "public": True}
+                doc = {"module": mid, "op": opname, "kind": "public-dtype", "case": case}
+                try:
+                    with warnings.catch_warnings():
+                        warnings.simplefilter("ignore")
+                        try:
+                            if opname == "Cast":
+                                x = env.argument(env.tensor(np.float32, (2,)))
+                                y = fn(x, to=cls)
+                                model = env.spox.build({"in_input": x}, {"y": y})
+                            else:
+                                arr = np.array(["a", "b"]) if cls is np.str_ else np.ones(3).astype(np.dtype(cls))
+                                model = env.spox.build({}, {"y": fn(value=arr)})
+                        except Exception as ex:  # noqa: BLE001
+                            ck.failure(f"{mid}:{opname}:call:raised",
+                                       f"{opname} with element type {onnx.TensorProto.DataType.Name(e)} (admitted by the schema) raised "
+                                       f"{type(ex).__name__}: {str(ex)[:150]}", doc)
+                            continue
+                    got = None
+                    for n in model.graph.node:
+                        if n.op_type == opname:
+                            for a in n.attribute:
+                                if opname == "Cast" and a.name == "to":
+                                    got = a.i
+                                if opname == "Constant" and a.name == "value":
+                                    got = a.t.data_type
+                except Exception as ex:  # noqa: BLE001
+                    ck.broken("correspondence", f"public dtype oracle {mid}:{opname} not observable", f"{type(ex).__name__}: {ex}")
+                    continue
+                stats["public_dtype_cases"] = stats.get("public_dtype_cases", 0) + 1
+                ck.count(("public-dtype", mid, opname, e))
+                if got != e:
+                    what = "to" if opname == "Cast" else "value"
+                    ck.failure(f"{mid}:{opname}:{what}:value",
+                               f"{opname} given element type {onnx.TensorProto.DataType.Name(e)} ({e}) emits {got}", doc)
+
+
 def public_type_oracle(ck, env: Env, stats):
     """`optional(type=T)` (the one operator with a TYPE_PROTO attribute) through the public API for
     every type value, named dimensions included: the TypeProto in the built model is read field by
@@ -1338,6 +1451,8 @@ def to_val(env, sa, v):
     T = sa.type.name
     if isinstance(v, type):
         return {"t": "dtype", "v": v.__name__}
+    if isinstance(v, np.dtype):
+        return {"t": "dtype", "v": v.name}
     if T == "INT":
         return {"t": "int", "v": int(v)}
     if T == "FLOAT":
@@ -1483,10 +1598,33 @@ def internal_oracle(ck, env: Env, info, stats, extra):
                         if sa.type.name == "SPARSE_TENSOR":
                             case = {"present": [], "variadic": None, "attrs": [a], "mode": "kw"}
                             runs.append((case, run_case(env, fn, schema, case)))
+                    # dtype-valued attributes (`to`, `dtype`): every element type ONNX defines, all in this
+                    # one process, in an order that differs from operator to operator
+                    dt_attrs = sorted({a for _, r_ in runs for a in r_.get("dtype_attrs", [])})
+                    opt_in = sorted(f.name for f in schema.inputs if f.option.name == "Optional")
+                    req_attrs = sorted(a for a, sa in schema.attributes.items() if sa.required)
+                    for a in dt_attrs:
+                        order = sorted(elem_types(env))
+                        ck.rng.shuffle(order)
+                        for e in order:
+                            case = {"present": opt_in, "variadic": 1 if any(f.option.name == "Variadic" for f in schema.inputs) else None,
+                                    "attrs": sorted(set(req_attrs) | {a}), "mode": "kw", "elem": e}
+                            runs.append((case, run_case(env, fn, schema, case)))
+                            stats["dtype_sweep_calls"] = stats.get("dtype_sweep_calls", 0) + 1
+                    # tensor-valued attributes holding every element type
+                    for a, sa in schema.attributes.items():
+                        if sa.type.name == "TENSOR":
+                            order = sorted(elem_types(env))
+                            ck.rng.shuffle(order)
+                            for e in order:
+                                case = {"present": opt_in, "variadic": None, "attrs": sorted(set(req_attrs) | {a}), "mode": "kw",
+                                        "layout": {a: ["elem", e]}}
+                                runs.append((case, run_case(env, fn, schema, case)))
+                                stats["tensor_elem_calls"] = stats.get("tensor_elem_calls", 0) + 1
                     cache[ckey] = runs
                 for case, r in cache[ckey]:
                     stats["calls"] += 1
-                    ck.count(("call", mid, op, tuple(case["present"]), case["variadic"], tuple(case["attrs"]), case["mode"], case.get("variant", 0), repr(case.get("same")), repr(case.get("layout")), repr(case.get("forms")), repr(case.get("tvariant")), case.get("vform"), case.get("vmut")))
+                    ck.count(("call", mid, op, tuple(case["present"]), case["variadic"], tuple(case["attrs"]), case["mode"], case.get("variant", 0), repr(case.get("same")), repr(case.get("layout")), repr(case.get("forms")), repr(case.get("tvariant")), case.get("vform"), case.get("vmut"), case.get("elem")))
                     for key, what in judge(env, mid, op, version, schema, case, r, cls):
                         ck.failure(key, what, {"module": mid, "op": op, "kind": "call", "case": case})
                     if r["status"] == "unobservable":
@@ -1576,6 +1714,7 @@ def run(ck: core.Check):
         try:
             public_tensor_oracle(ck, env, stats)
             public_type_oracle(ck, env, stats)
+            public_dtype_oracle(ck, env, stats, ck.rng)
         except Exception as e:  # noqa: BLE001
             ck.broken("correspondence", "public tensor/type oracle not observable", f"{type(e).__name__}: {e}")
     reqs, req_meta = [], []
@@ -1657,10 +1796,13 @@ def replay(ck: core.Check, doc) -> bool:
         if res is not None:
             verdicts += judge(env, mid, op, version, schema, res[0], res[1])
             verdicts += import_verdict(env, mid, op, schema, res[1])
-    if c.get("kind") in ("public-tensor", "public-type"):
-        ck2 = core.Check("C11", "quick", 0)
+    if c.get("kind") in ("public-tensor", "public-type", "public-dtype"):
+        ck2 = core.Check("C11", "quick", doc.get("seed", 0))
         ck2._findings = []
-        (public_tensor_oracle if c["kind"] == "public-tensor" else public_type_oracle)(ck2, env, {})
+        if c["kind"] == "public-dtype":
+            public_dtype_oracle(ck2, env, {}, ck2.rng)
+        else:
+            (public_tensor_oracle if c["kind"] == "public-tensor" else public_type_oracle)(ck2, env, {})
         verdicts += [(f["key"], f["what"]) for f in ck2.failures]
     if c.get("kind") == "call" and fn is not None:
         r = run_case(env, fn, schema, c["case"])
